@@ -7,6 +7,7 @@ import DznModel
 import DznProofs.Lemmas.Sem
 import DznProofs.C01
 import DznProofs.C04Gen
+import DznProofs.C04Example
 import DznProofs.SemReact
 open Py Ast Shell Sem Lem
 
@@ -101,5 +102,29 @@ theorem release_reaction_reaches_holder (rx : Reactions) (w : World) (n : Nat) (
   · rename_i hnone
     have h2 : w.selector mv = none := hnone
     rw [hsel] at h2; cases h2
+
+end C04
+
+/-! ### worked instance (kernel evaluation of the model on the shell of `C04Example`): client `A`'s
+    out-event `done` is bound, `A` claims and is granted; the component is told to raise `done` while it
+    handles `drop`; `A` releases — inside that call the out-event is observed by `A`, in dispatcher
+    context, right after the component's observation of the release, and afterwards nobody is selected -/
+namespace C04
+
+def evDone : Event := { name := L "done", replyType := [L "void"], dir := .out, formals := [] }
+
+/-- `A` has bound its out-event and holds the claim -/
+def mcHeld : World :=
+  let w := mcW.set ⟨.client (L "m_ppP") (L "A"), .out, L "done"⟩ (.scripted (.envc (L "A")) (L "p") evDone)
+  (invoke 8 (setReply w (L "p") (L "take") 1) ⟨.client (L "m_ppP") (L "A"), .in_, L "take"⟩ []).1
+
+def rxDrop : Reactions := [((L "p", L "drop"), (L "p", L "done"))]
+
+example : ((mcHeld.selector (L "m_ppP")).bind (·.selected)) = some (L "A") := by decide +kernel
+
+example :
+    let r := (invokeR rxDrop 9 { mcHeld with out := [] } ⟨.client (L "m_ppP") (L "A"), .in_, L "drop"⟩ []).1
+    r.out.reverse = [L "obs comp p.drop args= disp=1", L "obs env@A p.done args= disp=1"] ∧
+    ((r.selector (L "m_ppP")).bind (·.selected)) = none := by decide +kernel
 
 end C04
